@@ -339,13 +339,15 @@ NoDuplicateEntries == \A i, j \in 1..Len(file.es) : file.es[i].n = file.es[j].n 
 \* -- round trip
 ReadOk == A.n = "Read" /\ err = ""
 ReaderHasAll == \A s \in EntryNames(file) \cap Names : Has(A.o, s)     \* the reading object has every setting the file mentions
+WriterHadAll == \A s \in Names : Has(A.o, s) => s \in EntryNames(file)   \* ... and the full file was written by an object that had
+                                                                          \* every setting the reading object has
 ReadIsOverlay ==                         \* an unedited written file, read: mentioned settings take the writer's values,
     ReadOk /\ file.clean =>              \* the others keep what the reading object had
         \A s \in Names : val[A.o][s] = IF s \in EntryNames(file) /\ Has(A.o, s) THEN file.src[s] ELSE Pre[A.o][s]
 RoundTripFresh ==                        \* any style, read into a fresh object: equal values for every setting
     ReadOk /\ file.clean /\ Pre[A.o] = AllD /\ ReaderHasAll => val[A.o] = file.src
 RoundTripFull ==                         \* full style, read into any object
-    ReadOk /\ file.clean /\ file.style = "full" /\ ReaderHasAll => val[A.o] = file.src
+    ReadOk /\ file.clean /\ file.style = "full" /\ ReaderHasAll /\ WriterHadAll => val[A.o] = file.src
 UneditedFilesAreAccepted == A.n = "Read" /\ file.clean => err = "" /\ inv \subseteq {AdHoc, "N"}
 
 \* -- refusal
